@@ -52,16 +52,19 @@ type ErrInfo struct {
 
 // ListResult is everything one `list` run returned.
 type ListResult struct {
-	Entries  []Entry
-	Peers    []PeerInfo
-	Err      string // returned error ("" = nil)
-	HasErr   bool
-	Errs     []ErrInfo
-	Panic    string // recovered panic value + stack ("" = none)
-	Output   string // formatted output if requested
-	OutErr   string
-	Exposed  []ExposedInfo
-	ScanErrs int // ViaInfos only: errors the directory scan itself returned (they never reach the analyzer on that route)
+	Entries []Entry
+	Peers   []PeerInfo
+	Err     string // returned error ("" = nil)
+	HasErr  bool
+	Errs    []ErrInfo
+	Panic   string // recovered panic value + stack ("" = none)
+	Output  string // formatted output if requested
+	// OutputAgainDiffers: a second ConnectionsListToString on the same analyzer and connections returned other bytes (OutputAgain)
+	OutputAgainDiffers bool
+	OutputAgain        string
+	OutErr             string
+	Exposed            []ExposedInfo
+	ScanErrs           int // ViaInfos only: errors the directory scan itself returned (they never reach the analyzer on that route)
 	// raw handles for monitors that need the real objects (same process only)
 	RawConns []connlist.Peer2PeerConnection
 	RawPeers []connlist.Peer
@@ -194,6 +197,13 @@ func List(dir string, o ListOpts) (res *ListResult) {
 		res.Output = out
 		if ferr != nil {
 			res.OutErr = ferr.Error()
+		} else {
+			// the same analyzer asked again for the same connections must answer with the same bytes (a formatter that keeps state
+			// between calls - rows remembered from the previous call - shows here)
+			if out2, ferr2 := ca.ConnectionsListToString(conns); ferr2 != nil || out2 != out {
+				res.OutputAgainDiffers = true
+				res.OutputAgain = out2
+			}
 		}
 	}
 	return res
